@@ -135,5 +135,15 @@ PROPS["C13"] = {
             "auto-import index is not covered.",
     "undecided": ["whole-history coherence for all histories", "concluded data across modules", "auto-import index"],
 }
+PROPS["C09"] = {
+    "sidecars": ["c09_effects.py", "c10_change.py"],
+    "level": "exploration",
+    "claim": "Mostly a bounded check with an effect monitor: every offset x 12 refactorings computes its changes with every disk mutator intercepted and the disk "
+             "snapshot compared; scenarios check announced == touched, inside the project, never ignored.  Deductive kernel: ChangeSet.get_changed_resources "
+             "announces everything its children announce (loop invariant), and a composite's effect is its children's effects (C10 contracts).",
+    "note": "no contract within reach states 'get_changes of every refactoring has no disk effect' for all requests (dynamic dispatch over the whole refactoring "
+            "package); the monitor sees only the executions of the bounded domain.",
+    "undecided": ["purity for all requests", "preview text == written text"],
+}
 _NB = "check not built yet (framework under construction; see DESIGN.md section 8)"
 NOT_APPLICABLE = {"C%02d" % i: _NB for i in range(1, 21)}
